@@ -25,39 +25,38 @@ _Bool wf_board(const struct Position *p)
 { for (uint32_t s = 0; s < 64; s++) if (!wf_board_at(p, s)) return 0; return 1; }
 uint64_t wf_bb(const struct Position *p, uint32_t pc) { return p->_by_color_bb[sp_colour(pc)] & p->_by_piece_kind_bb[sp_kind(pc)]; }
 /* piece list of code pc and its bitboard are in bijection: count within capacity, every entry is a square of the bitboard,
- * entries pairwise distinct, and every square of the bitboard occurs in the list.  (Stated without counting: "count ==
- * popcount" would force the SAT solver through a pigeonhole argument whenever a list search must be shown to succeed.) */
+ * entries pairwise distinct, and every square of the bitboard occurs in the list - stated as "the set of listed squares equals
+ * the bitboard, and no entry repeats an earlier one".  (Stated without counting: "count == popcount" would force the SAT
+ * solver through a pigeonhole argument whenever a list search must be shown to succeed.) */
 _Bool wf_row(const struct Position *p, uint32_t pc)
 {
+  /* written as one conjunction (no early returns): keeps the guards of the symbolic execution flat */
   int n = p->_piece_count[pc];
-  if (n < 0 || n > 10) return 0;
+  _Bool ok = n >= 0 && n <= 10;
   uint64_t bb = wf_bb(p, pc);      /* (with wf_board: bit s of bb  <=>  _board[s] == pc) */
-  for (int i = 0; i < 10; i++) if (i < n) {
+  uint64_t listed = 0;             /* squares named by the first n entries */
+  for (int i = 0; i < 10; i++) {
     uint32_t s = p->_piece_position[pc][i];
-    if (s >= 64 || !((bb >> s) & 1)) return 0;
-    for (int j = 0; j < 10; j++) if (j < i && p->_piece_position[pc][j] == s) return 0;
+    _Bool live = i < n;
+    ok = ok && (!live || (s < 64 && ((bb >> (s & 63)) & 1) && !((listed >> (s & 63)) & 1)));   /* on the bitboard, not listed before */
+    listed |= live && s < 64 ? (1ULL << (s & 63)) : 0ULL;
   }
-  for (uint32_t s = 0; s < 64; s++) if ((bb >> s) & 1) {
-    _Bool found = 0;
-    for (int i = 0; i < 10; i++) if (i < n && p->_piece_position[pc][i] == s) found = 1;
-    if (!found) return 0;
-  }
-  return 1;
+  return ok && listed == bb;       /* and every square of the bitboard is listed */
 }
 /* the same, point-wise: slot i, slot pair (i, j) and square sq (used in postconditions with ghost arguments) */
 _Bool wf_row_at(const struct Position *p, uint32_t pc, uint32_t sq, int i, int j)
 {
   int n = p->_piece_count[pc];
-  if (n < 0 || n > 10) return 0;
+  _Bool ok = n >= 0 && n <= 10;
   uint64_t bb = wf_bb(p, pc);
-  if (i >= 0 && i < n) { uint32_t s = p->_piece_position[pc][i]; if (s >= 64 || !((bb >> s) & 1)) return 0; }
-  if (i >= 0 && j > i && j < n && p->_piece_position[pc][i] == p->_piece_position[pc][j]) return 0;
+  if (i >= 0 && i < 10 && i < n) { uint32_t s = p->_piece_position[pc][i]; ok = ok && s < 64 && ((bb >> (s & 63)) & 1); }
+  if (i >= 0 && j > i && j < 10 && j < n) ok = ok && p->_piece_position[pc][i] != p->_piece_position[pc][j];
   if (sq < 64 && ((bb >> sq) & 1)) {
     _Bool found = 0;
-    for (int k = 0; k < 10; k++) if (k < n && p->_piece_position[pc][k] == sq) found = 1;
-    if (!found) return 0;
+    for (int k = 0; k < 10; k++) found = found || (k < n && p->_piece_position[pc][k] == sq);
+    ok = ok && found;
   }
-  return 1;
+  return ok;
 }
 _Bool wf_lists(const struct Position *p)
 { for (uint32_t pc = 1; pc <= 12; pc++) if (!wf_row(p, pc)) return 0; return 1; }
